@@ -31,7 +31,8 @@ func c17Record(tier string, seed int64, emit func(interface{})) {
 		dbs[n] = primers.NucleobaseDeBruijnSequence(n)
 		emit(map[string]interface{}{"k": "db", "n": n, "s": dbs[n]})
 	}
-	call := func(n, length int, bans, filters []string) {
+	var call func(n, length int, bans, filters []string)
+	callAs := func(n, length int, passed, bans, filters []string) {
 		var fs []func(string) bool
 		for _, f := range filters {
 			fs = append(fs, c17Filters[f])
@@ -40,7 +41,7 @@ func c17Record(tier string, seed int64, emit func(interface{})) {
 		if len(bans) == 0 && len(filters) == 0 && rng.Intn(2) == 0 {
 			list = primers.CreateBarcodes(length, n)
 		} else {
-			list = primers.CreateBarcodesWithBannedSequences(length, n, bans, fs)
+			list = primers.CreateBarcodesWithBannedSequences(length, n, passed, fs)
 		}
 		idx := []int{}
 		from := 0
@@ -62,6 +63,12 @@ func c17Record(tier string, seed int64, emit func(interface{})) {
 			list = []string{}
 		}
 		emit(map[string]interface{}{"k": "bar", "n": n, "len": length, "bans": nz(bans), "filters": nz(filters), "list": list, "idx": idx})
+	}
+	// the caller's list of sites is the caller's: a call is given its OWN copy of the bans, followed in the same
+	// backing array by the words of a longer list (a prefix of one site list, as in `sites[:k]`)
+	call = func(n, length int, bans, filters []string) {
+		backing := append(append(make([]string, 0, len(bans)+3), bans...), "ACGTAC", "GGATCC", "TTGACA")
+		callAs(n, length, backing[:len(bans):len(backing)], bans, filters)
 	}
 	if path := os.Getenv("C17_CASES"); path != "" {
 		f, err := os.Open(path)
@@ -150,6 +157,13 @@ func c17Record(tier string, seed int64, emit func(interface{})) {
 			filters = append(filters, fnames[rng.Intn(4)])
 		}
 		call(n, length, bans, filters)
+		// growing prefixes of ONE site list in one backing array: each call is judged against the bans it was given
+		if len(bans) >= 2 && i%2 == 0 {
+			orig := append([]string(nil), bans...)
+			for k := 1; k <= len(bans); k++ {
+				callAs(n, length, bans[:k], orig[:k], filters)
+			}
+		}
 	}
 }
 
